@@ -11,11 +11,11 @@ IntLoQ == {0, 2}
 IntHiQ == {5}
 IntLoT == {0, 2}
 IntHiT == {0, 5}
-LenLoQ == {0, 2}
+LenLoQ == {0, 2, 3}      \* 3 = LenHiQ: an exact length (min = max)
 LenHiQ == {3}
-LenLoT == {0, 1, 2}
+LenLoT == {0, 1, 2, 3}
 LenHiT == {0, 3}
-CntLoQ == {0, 1}
+CntLoQ == {0, 1, 2}      \* 2 = CntHiQ: an exact count, and a lower bound above the 1 that `required` implies
 CntHiQ == {2}
 CntLoT == {0, 1, 2}
 CntHiT == {0, 2}
